@@ -94,6 +94,8 @@ def work_model(task):
     nshrunk = 0
     try:
         for i in range(start, start + count):
+            if len(ev.violations) >= 30:
+                break       # verdict settled
             rnd = random.Random((seed << 32) ^ (i * 2654435761 & 0xffffffff) ^ 0xC10)
             node, body, parts, nstart, glabels = closure_program(rnd)
             nb = G.count_nodes(body)
